@@ -360,7 +360,12 @@ fn restore_entries(db: &mut Database, store: &mut Store) -> PersistenceResult<()
                 let value = v.value();
                 trace!("Read entry {key}={value:?}");
                 let path = parse_segments(&key)?;
-                store.insert(&path, value, true)?;
+                let value = match value {
+                    // written by versions that persisted the version carried by the request
+                    ValueEntry::Cas(value, 0) => ValueEntry::Cas(value, 1),
+                    value => value,
+                };
+                store.restore(&path, value);
             }
         }
         Err(e) => match e {
